@@ -66,6 +66,18 @@ CLAIMED = {
         "contract-based deductive verification: own VC generator over the real source, loop/scan invariants, callee contracts with ghost call traces",
         "DESIGN.md §3 C07",
     ),
+    "C08": (
+        "other",
+        "Proved for all inputs: ListEpochChain.append keeps exactly the states whose within-epoch iteration number is a multiple of the "
+        "thinning (counter invariant, any chunk size => chunk-partition independence), no thinning for flag-off chains; ListChain order; "
+        "combine_all/combine_filtered and the posterior accessors select exactly the (POSTERIOR) epochs in order (1..3 epochs); scan_f stores "
+        "extract_position(tracked keys, state after all kernels), infos, kernel states iff requested; per-chunk appends; builder key selection. "
+        "One obligation (empty key selection respected by Engine.__init__) is refuted on the unchanged tree = open known finding D9, hence 'other'.",
+        "numpy index arithmetic modelled as index sets (arange, boolean mask, np.s_); slice_leaves/concatenate_leaves by contract; epoch count "
+        "1..3 in the combine units; D9 in known_findings.json.",
+        "contract-based deductive verification: own VC generator over the real source (quantified integer arithmetic), data-structure invariant, callee contracts",
+        "DESIGN.md §3 C08",
+    ),
 }
 
 NOT_APPLICABLE = {
